@@ -163,6 +163,9 @@ class C07(Harness):
         # without importing it (invalid whatever was checked before it in the same run)
         for pattern in ('', 'v', 'i', 'vi', 'ii', 'iv', 'iii', 'ivi', 'vv', 'pu', 'up', 'pvu', 'pp', 'upu'):
             us.append({'kind': 'validator-files', 'files': pattern})
+        # 'b' = a file whose bytes are not valid UTF-8 (a Latin-1 text, say): invalid, status 1 with a message
+        for pattern in ('b', 'vb', 'bv'):
+            us.append({'kind': 'validator-files', 'files': pattern})
         for q in ('my dir', '100%20x', 'a#b', 'd\u00e9j\u00e0 vu %s'):
             us.append({'kind': 'validator-files', 'files': 'iv', 'q': q})
             us.append({'kind': 'validator-files', 'files': 'up', 'q': q})
@@ -273,6 +276,10 @@ class C07(Harness):
             args = ['-s', sp]
             for i, ch in enumerate(unit['files']):
                 fp = os.path.join(d, 'c%d.conf' % i)
+                if ch == 'b':
+                    open(fp, 'wb').write(b'kt 5\n# caf\xe9 \xff\xfe\n')
+                    args.append(fp)
+                    continue
                 if imports:
                     text = {'v': 'kz 5\n', 'i': '<tb>\n', 'p': '%import vfq_a\n<pa/>\n', 'u': '<pa/>\nkz 1\n'}[ch]
                 else:
@@ -288,7 +295,7 @@ class C07(Harness):
             except Exception as e:
                 return ('crash', type(e).__name__)
             n = len([x for x in err.getvalue().split('\n') if x.strip()])
-            bad = unit['files'].count('i') + unit['files'].count('u')
+            bad = unit['files'].count('i') + unit['files'].count('u') + unit['files'].count('b')
             ok = (rc == (1 if bad else 0)) and (n >= bad) and (bad > 0 or n == 0)
             return ('ok' if rc == 0 else 'reject', rc, ok)
         finally:
